@@ -35,7 +35,7 @@ func init() {
 	}})
 }
 
-func (p *c16) NumCases(tier string, seed int64) int { return tierN(tier, 3000, 60000) }
+func (p *c16) NumCases(tier string, seed int64) int { return tierN(tier, 12000, 900000) }
 
 type c16Case struct {
 	kind     string
